@@ -344,6 +344,12 @@ func (g *gen) mgrCase(watchOnly bool, exhaustiveFlips bool) {
 			ops = append(ops, fmt.Sprintf("dec k=zero ct=%d", c.idx))
 		}
 	}
+	// a "legacy row": sealed directly under the all-zero key; Decrypt(CKTScript) must still read it while unlocked
+	// (read-side fallback), refuse it while locked, and refuse every tampering of it
+	legacyLen := g.rng.Intn(40)
+	ops = append(ops, fmt.Sprintf("enc k=zero len=%d pat=%d", legacyLen, g.rng.Intn(256)))
+	cts = append(cts, ctInfo{nct, 1, legacyLen + 40})
+	nct++
 	for kt := 0; kt <= 3; kt++ {
 		enc(kt, g.rng.Intn(70))
 	}
@@ -882,7 +888,13 @@ func (r *runner) Exec(op string) (string, string) {
 			if err != nil {
 				return errKind(err), ""
 			}
-			return fmt.Sprintf("ok len=%d eq=%d", len(out), b2i(bytes.Equal(out, e.pt))), ""
+			v := ""
+			if *k == (snacl.CryptoKey{}) {
+				// nothing the manager seals may open under the publicly known all-zero key (DESIGN §7 O1, fixed by
+				// /repo b81a3ff): such data is bound to no passphrase at all
+				v = viol("manager.sealed-under-zero-key", fmt.Sprintf("ciphertext sealed by Manager.Encrypt(key type %d) opens under the all-zero key", e.key[1]))
+			}
+			return fmt.Sprintf("ok len=%d eq=%d", len(out), b2i(bytes.Equal(out, e.pt))), v
 		}
 		return judgeDec(out, err, e, c2, *k, errKind)
 
@@ -1262,6 +1274,12 @@ func (r *runner) Exec(op string) (string, string) {
 		out, err := r.mgr.Decrypt(waddrmgr.CryptoKeyType(kt), append([]byte{}, c2...))
 		var tagKey [32]byte
 		tagKey[0], tagKey[1], tagKey[2] = 0xff, byte(kt), byte(r.mgrN)
+		if kt == 1 && !ent.mgr && ent.key == ([32]byte{}) {
+			// /repo b81a3ff: Decrypt(CKTScript) keeps a READ-side fallback to the all-zero key for rows sealed by
+			// versions that never restored the script key; such a blob is "genuine" for kt=script (documented
+			// compatibility decision). Anything tampered must still fail.
+			tagKey = ent.key
+		}
 		reply, v := judgeDec(out, err, ent, c2, tagKey, mgrErrKind)
 		if err != nil && strings.Contains(v, "decrypt.roundtrip") {
 			// a genuine ciphertext may legitimately be refused while locked (ErrLocked)
